@@ -117,11 +117,25 @@ impl Array {
         let (a, a_transpose) = a;
         let (b, b_transpose) = b;
 
-        let input_dimensions = if a.dimensions.len() >= b.dimensions.len() {
+        let longer_dimensions = if a.dimensions.len() >= b.dimensions.len() {
             &a.dimensions
         } else {
             &b.dimensions
         };
+
+        // broadcast the leading dimensions of both arrays against each other
+        let input_dimensions: Vec<usize> = element_wise_dimensions(
+            &a.dimensions[..a.dimensions.len().saturating_sub(2)],
+            &b.dimensions[..b.dimensions.len().saturating_sub(2)],
+        )
+        .into_iter()
+        .chain(
+            longer_dimensions
+                .iter()
+                .copied()
+                .skip(longer_dimensions.len().saturating_sub(2)),
+        )
+        .collect();
 
         // TODO OpenCL
         let output_rows = if a.dimensions.len() < 2 && (!a_transpose || b.dimensions.len() < 2) {
@@ -254,7 +268,7 @@ impl Array {
             vec![a, b, c],
             &op,
             backward_op,
-            input_dimensions,
+            &input_dimensions,
             &output_dimensions,
             2,
             0,
